@@ -258,12 +258,11 @@ def effectiveStrict (cfg : Option Bool) (ps : List Policy) : Bool :=
   | none => hasTLSClientAuth ps
 
 /-- MatchHost's label loop for a pattern that contains `*`: the label counts must agree, a pattern
-    label that is exactly `*` matches ANY label (an empty one too), every other label must be
-    EqualFold-equal -/
+    label that is exactly `*` matches any NON-EMPTY label, every other label must be EqualFold-equal -/
 def labelsMatch : List Bytes → List Bytes → Bool
   | [], [] => true
   | p :: ps, l :: ls =>
-    if p = [cStar] then labelsMatch ps ls
+    if p = [cStar] then (if l.isEmpty then false else labelsMatch ps ls)
     else if equalFold p l then labelsMatch ps ls
     else false
   | _, _ => false
